@@ -1147,6 +1147,112 @@ func runSwap() {
 	}
 }
 
+// ------------------------------------------------------------------ effective delay (real time)
+
+// staleTickSurvivesReset probes the timer semantics of THIS build: under the `go 1.18` line of the
+// main module (GODEBUG asynctimerchan=1) a Ticker's channel is buffered and a tick that fired
+// before Reset is still received afterwards; with go >= 1.23 semantics it is not.
+func staleTickSurvivesReset() bool {
+	t := time.NewTicker(2 * time.Millisecond)
+	defer t.Stop()
+	time.Sleep(15 * time.Millisecond)
+	t.Reset(time.Hour)
+	select {
+	case <-t.C:
+		return true
+	default:
+		return false
+	}
+}
+
+// slowConn: every contact after the first takes `contact` (spent inside Connect); attempt 2 then
+// fails, the others go on to a real exchange.  Start and end of every Connect are recorded.
+type slowConn struct {
+	contact    time.Duration
+	start, end []time.Time
+	sess       *c2.Session
+	ready      chan struct{}
+}
+
+func (c *slowConn) Connect(x context.Context, a string) (net.Conn, error) {
+	idx := len(c.start)
+	c.start = append(c.start, time.Now())
+	if idx > 0 {
+		time.Sleep(c.contact)
+	}
+	var (
+		v   net.Conn
+		err error
+	)
+	if idx == 2 {
+		err = errors.New("scripted connect failure")
+	} else {
+		v, err = com.TCP.Connect(x, a)
+	}
+	if idx >= 3 {
+		<-c.ready
+		c2.VerifC19CloseNoWait(c.sess)
+	}
+	c.end = append(c.end, time.Now())
+	return v, err
+}
+
+// runEffective: a real Session with jitter 0 and NO work hours, real timers; the time between the
+// end of an attempt and the start of the next must not be (much) shorter than the sleep.  Being
+// late is never a failure.
+func runEffective() {
+	c2.VerifC19Set(nil)
+	cfg.VerifC19SetNow(nil)
+	if !staleTickSurvivesReset() {
+		out.Note("effective-delay scenarios skipped: in this build a stale tick does not survive Ticker.Reset (timer semantics of go >= 1.23), the drain loop of wait() cannot be observed")
+		out.Extra("stale_tick_survives_reset", false)
+		return
+	}
+	out.Extra("stale_tick_survives_reset", true)
+	for _, ms := range []int64{20, 40, 80} {
+		sleep := time.Duration(ms) * time.Millisecond
+		cc := &slowConn{contact: 3 * sleep, ready: make(chan struct{})}
+		old := local.UUID
+		ub := rng.Bytes(len(local.UUID))
+		ub[0] |= 1
+		copy(local.UUID[:], ub)
+		ctx, cancel := context.WithCancel(context.Background())
+		s, err := c2.ConnectContext(ctx, logx.NOP, cfg.Static{C: cc, H: srvAddr, S: sleep, J: 0})
+		local.UUID = old
+		if err != nil {
+			cancel()
+			panic("harness: effective-delay scenario: connect: " + err.Error())
+		}
+		cc.sess = s
+		close(cc.ready)
+		select {
+		case <-s.Done():
+		case <-time.After(30 * time.Second):
+			cancel()
+			panic("harness: effective-delay scenario did not end within 30 s")
+		}
+		cancel()
+		var gaps []int64
+		var gd []string
+		// attempts 1 -> 2 (after a long, successful contact) and 2 -> 3 (after a long, failed one);
+		// Close() is called during attempt 3, what follows is the notice without a sleep
+		for i := 1; i <= 2 && i+1 < len(cc.start) && i < len(cc.end); i++ {
+			g := int64(cc.start[i+1].Sub(cc.end[i]))
+			gaps = append(gaps, g)
+			gd = append(gd, fmt.Sprintf("attempt %d started %s after attempt %d ended", i+1, time.Duration(g), i))
+		}
+		desc := map[string]interface{}{"sleep_ns": int64(sleep), "jitter": 0, "work_hours": "none", "contact_ns": int64(cc.contact), "gaps": gd}
+		for _, g := range gaps {
+			if g*10 < int64(sleep)*8 {
+				out.Fail(fmt.Sprintf("jitter is 0 and the sleep is %s, but after a contact of %s the client waited only %s before its next contact", sleep, cc.contact, time.Duration(g)),
+					"effective-delay-shorter-than-sleep-after-long-contact", desc)
+				break
+			}
+		}
+		out.Add(fmt.Sprintf("CTick %d %d %s", int64(sleep), int64(cc.contact), vh.ZList64(gaps)), "effective-delay/real-time", len(gaps) >= 2, desc)
+	}
+}
+
 func okItems(n int) []itemT { return make([]itemT, n) }
 
 func runKill() {
@@ -1251,6 +1357,7 @@ func runKill() {
 	}
 	runSwap()
 	out.Extra("kill_e2e_scenarios", e2eRuns)
+	runEffective()
 }
 
 func main() {
